@@ -170,6 +170,7 @@ func init() {
 								got := ls.Get(h, u, sl...)
 								best := c14Best(locs, sl, h, u)
 								kase := map[string]interface{}{"locations": locs, "server_list": sl, "host": h, "uri": u}
+								c.Sample(kase)
 								if got == nil {
 									if best >= 0 {
 										c.Violation("locations-get", "no-location-although-one-matches", fmt.Sprintf("%v names %v request %s%s: nil, but a class-%d location matches", locs, sl, h, u, best), nil, kase, nil)
